@@ -32,19 +32,27 @@ ModeVal(ctx, used, comb) ==
                 ELSE IF fill = 0 THEN 0 ELSE IF fill = 1 THEN 1 ELSE rnd[i]]
   IN IF \A i \in 1..32 : bits[i] = 0 THEN "0" ELSE BitsToDec(bits)
 
-RECURSIVE GenTy(_, _, _, _), GenFields(_, _, _, _, _, _, _)
-GenFields(S, d, ctx, dep, comb, i, acc) ==
+\* ov = [decl |-> constructor / function name, field |-> name, n |-> length]: the vector in that field gets exactly n
+\* elements wherever that constructor is generated (decl = "" : no override)
+NoOv == [decl |-> "", field |-> "", n |-> 0]
+\* path element(s) of item i of a vector: two context bytes, so that up to 25600 * 256 items draw different streams
+Idx(i) == <<100 + (i % 100), (i \div 100) % 256, i \div 25600>>
+RECURSIVE GenTy(_, _, _, _, _), GenFields(_, _, _, _, _, _, _, _), GenVecN(_, _, _, _, _, _)
+GenFields(S, d, ctx, dep, comb, i, acc, ov) ==
   IF i > Len(d.fields) THEN acc
   ELSE LET f == d.fields[i] IN
-       IF IsTrue(f) \/ ~Present(f, acc) THEN GenFields(S, d, ctx, dep, comb, i + 1, acc)
+       IF IsTrue(f) \/ ~Present(f, acc) THEN GenFields(S, d, ctx, dep, comb, i + 1, acc, ov)
        ELSE LET used == UsedBits(d, f.name)
                 val  == IF ~IsVec(f.ty) /\ f.ty = "#" /\ ~HasFlag(f) /\ used # {}
                           THEN ModeVal(ctx \o <<i>>, used, comb)
-                          ELSE GenTy(S, f.ty, ctx \o <<i>>, dep + 1)
-            IN GenFields(S, d, ctx, dep, comb, i + 1, acc @@ (f.name :> val))
-GenRec(S, d, ctx, dep, comb) == GenFields(S, d, ctx, dep, comb, 1, "_" :> d.ctor)
-GenTy(S, ty, ctx, dep) ==
-  IF IsVec(ty) THEN [i \in 1..Pick(ctx \o <<200>>, VecMax(dep) + 1) |-> GenTy(S, ty.vector, ctx \o <<100 + i>>, dep + 1)]
+                          ELSE IF IsVec(f.ty) /\ ov.decl = d.ctor /\ ov.field = f.name
+                            THEN GenVecN(S, f.ty.vector, ctx \o <<i>>, dep + 2, ov.n, ov)
+                            ELSE GenTy(S, f.ty, ctx \o <<i>>, dep + 1, ov)
+            IN GenFields(S, d, ctx, dep, comb, i + 1, acc @@ (f.name :> val), ov)
+GenRec(S, d, ctx, dep, comb, ov) == GenFields(S, d, ctx, dep, comb, 1, "_" :> d.ctor, ov)
+GenVecN(S, ety, ctx, dep, n, ov) == [i \in 1..n |-> GenTy(S, ety, ctx \o Idx(i), dep, ov)]
+GenTy(S, ty, ctx, dep, ov) ==
+  IF IsVec(ty) THEN GenVecN(S, ty.vector, ctx, dep + 1, Pick(ctx \o <<200>>, VecMax(dep) + 1), ov)
   ELSE CASE ty = "int"  -> IF Pick(ctx \o <<1>>, 3) = 0 THEN EdgeInt[Pick(ctx \o <<2>>, Len(EdgeInt)) + 1]
                            ELSE B!SDec(BytesToBits(R(ctx \o <<3>>)))
          [] ty = "long" -> IF Pick(ctx \o <<1>>, 3) = 0 THEN EdgeLong[Pick(ctx \o <<2>>, Len(EdgeLong)) + 1]
@@ -54,25 +62,25 @@ GenTy(S, ty, ctx, dep) ==
          [] ty = "int256" -> BytesToHex(RBytes(ctx \o <<4>>, 32))
          [] ty \in {"bytes", "string"} -> BytesToHex(GenBytes(ctx, StrLenAt(ctx, dep)))
          [] ty = "Bool" -> Pick(ctx \o <<5>>, 2) = 1
-         [] IsCtor(S, ty) -> GenRec(S, CtorDecl(S, ty), ctx, dep, -1)
+         [] IsCtor(S, ty) -> GenRec(S, CtorDecl(S, ty), ctx, dep, -1, ov)
          [] IsResult(S, ty) -> LET cs == CtorsOf(S, ty) IN
-                               GenRec(S, S.types[NthOf(cs, Pick(ctx \o <<6>>, Cardinality(cs)))], ctx, dep, -1)
-         [] IsFn(S, ty) -> GenRec(S, FnDecl(S, ty), ctx, dep, -1)
+                               GenRec(S, S.types[NthOf(cs, Pick(ctx \o <<6>>, Cardinality(cs)))], ctx, dep, -1, ov)
+         [] IsFn(S, ty) -> GenRec(S, FnDecl(S, ty), ctx, dep, -1, ov)
 
 \* root: the constructor's own flag field takes combination `round` of its used bits; a sum type
 \* cycles through its constructors first
-GenRoot(S, ty, ctx, round) ==
-  IF ty \in Builtins THEN GenTy(S, ty, ctx, 0)
-  ELSE IF IsCtor(S, ty) THEN GenRec(S, CtorDecl(S, ty), ctx, 0, round)
-  ELSE IF IsFn(S, ty) THEN GenRec(S, FnDecl(S, ty), ctx, 0, round)
+GenRoot(S, ty, ctx, round, ov) ==
+  IF ty \in Builtins THEN GenTy(S, ty, ctx, 0, ov)
+  ELSE IF IsCtor(S, ty) THEN GenRec(S, CtorDecl(S, ty), ctx, 0, round, ov)
+  ELSE IF IsFn(S, ty) THEN GenRec(S, FnDecl(S, ty), ctx, 0, round, ov)
   ELSE LET cs == CtorsOf(S, ty) IN
-       GenRec(S, S.types[NthOf(cs, round % Cardinality(cs))], ctx, 0, round \div Cardinality(cs))
+       GenRec(S, S.types[NthOf(cs, round % Cardinality(cs))], ctx, 0, round \div Cardinality(cs), ov)
 
 \* --------------------------------------------------------------- vectors
 \* t = [ty, op], op: Enc (ty as named) | EncBare (fields of a function) | Fn (whole request) |
 \* Call (request and the answer the scripted connection gives: every 4th an error, else a value of the result type)
-VecOf(S, t, n, ctx, round) ==
-  LET v     == GenRoot(S, t.ty, ctx, round)
+VecOfOv(S, t, n, ctx, round, ov) ==
+  LET v     == GenRoot(S, t.ty, ctx, round, ov)
       base  == [vec |-> n, ty |-> t.ty, op |-> t.op, v |-> v]
   IN
   IF t.op = "Enc" THEN base @@ [hex |-> BytesToHex(Enc(S, t.ty, v))]
@@ -81,9 +89,10 @@ VecOf(S, t, n, ctx, round) ==
   ELSE
     LET fd     == FnDecl(S, t.ty)
         isErr  == round % 4 = 3
-        rv     == IF isErr THEN GenRec(S, CtorDecl(S, "liteServer.error"), ctx \o <<250>>, 0, -1) ELSE GenRoot(S, fd.result, ctx \o <<251>>, round)
+        rv     == IF isErr THEN GenRec(S, CtorDecl(S, "liteServer.error"), ctx \o <<250>>, 0, -1, NoOv) ELSE GenRoot(S, fd.result, ctx \o <<251>>, round, ov)
         body   == IF isErr THEN Enc(S, "liteServer.Error", rv) ELSE Enc(S, fd.result, rv)
     IN base @@ [hex |-> BytesToHex(Enc(S, t.ty, v)), res_ty |-> fd.result, is_err |-> isErr, resv |-> rv, body |-> BytesToHex(body)]
+VecOf(S, t, n, ctx, round) == VecOfOv(S, t, n, ctx, round, NoOv)
 \* the generator's own sanity: what it emits is in the domain and decodes back to itself
 VecSane(S, x) ==
   /\ Valid(S, x.ty, x.v)
